@@ -639,8 +639,22 @@ func (gb *gcpBalancer) UpdateSubConnState(sc balancer.SubConn, scs balancer.SubC
 func (gb *gcpBalancer) refresh(ref *subConnRef) {
 	gb.mu.Lock()
 	defer gb.mu.Unlock()
+	gb.refreshLocked(ref, nil)
+}
+
+// refreshSince is refresh() for a caller that decided to refresh on the strength of
+// the given last response time, without holding gb.mu. If the subConnRef saw a
+// response or completed a refresh since then, the decision is stale and nothing is done.
+func (gb *gcpBalancer) refreshSince(ref *subConnRef, lastResp time.Time) {
+	gb.mu.Lock()
+	defer gb.mu.Unlock()
+	gb.refreshLocked(ref, &lastResp)
+}
+
+// refreshLocked must be called holding gb.mu.
+func (gb *gcpBalancer) refreshLocked(ref *subConnRef, since *time.Time) {
 	ref.mu.Lock()
-	if ref.refreshing {
+	if ref.refreshing || (since != nil && !ref.lastResp.Equal(*since)) {
 		ref.mu.Unlock()
 		return
 	}
